@@ -66,6 +66,19 @@ for pid in sorted(c):
                         et,st=esttime(pk,h,cand); log.append((dict(cand),et,st))
                         if et is not None and et<=budget:
                             cur=cand; improved=True
+        # beyond the coded thorough values: numeric (non-boolean) parameters may grow further
+        if os.environ.get('CALIB_EXTEND','1')=='1':
+            improved=True
+            while improved:
+                improved=False
+                for k in sorted(t):
+                    hi=max(q[k],t[k])
+                    if hi<=1 or k in ('conds','forms','strmin','str','nil','rich','trees','allopts','extras','wild'): continue
+                    if cur[k]>=hi+2 or cur[k]<hi: continue
+                    cand=dict(cur); cand[k]+=1
+                    et,st=esttime(pk,h,cand); log.append((dict(cand),et,st))
+                    if et is not None and et<=budget:
+                        cur=cand; improved=True
         # confirm by a real run; step back towards quick if it does not complete
         order=[k for k in sorted(cur) if cur[k]>q[k]]
         while True:
